@@ -821,7 +821,9 @@ def _map(pool, fn, jobs):
 #            family  TLC parts
 FAMILIES = [("m11", 2), ("kwargs", 2), ("slots", 2), ("data", 2), ("m21", 2), ("m12", 1), ("args", 1),
             ("cross", 1), ("laws", 1)]
-SELFTEST_FAMILIES = [("m11", 2), ("kwargs", 2), ("slots", 2), ("data", 2), ("args", 1), ("cross", 1)]
+THOROUGH_FAMILIES = [("m21", 4), ("kwargs", 4), ("data", 4), ("args", 2), ("m12", 2), ("m11", 2), ("slots", 2),
+                     ("cross", 1), ("laws", 2)]
+SELFTEST_FAMILIES = [("m11", 2), ("kwargs", 2), ("args", 1), ("cross", 1)]
 
 
 def core(chk: Check, families, rich: bool, ntraces: int, depth: int,
@@ -873,7 +875,7 @@ def run(tier: str) -> int:
     if tier == "quick":
         core(chk, FAMILIES, False, 3000, 3)
     else:
-        core(chk, FAMILIES, True, 40000, 4)
+        core(chk, THOROUGH_FAMILIES, True, 40000, 4)
     chk.cov["exhaustive"] = True
     chk.cov["python"] = sys.version.split()[0]
     chk.cov["rule"] = ("every initial state of MC_X02 = one (declaration, call) case of a bounded family "
